@@ -410,6 +410,44 @@ pub fn run(tier: Tier) -> i32 {
     }
     rep.guard(n_dev_classes >= 8, "fewer than 8 distinct device classes");
 
+    // 8b. twin lines: two lines of one program that differ only in the letter case of a
+    //     character literal (the one place of an instruction line where case carries meaning),
+    //     in both orders, repeated, at top level and in the body of a macro that is called twice
+    let mut n_twins = 0usize;
+    for mn in ["ldi", "cpi", "subi", "sbci", "andi", "ori"] {
+        for (lo, up) in [('a', 'A'), ('z', 'Z'), ('q', 'Q'), ('x', 'X')] {
+            for reg in [16i64, 31] {
+                let line = |ch: char, spaced: bool| if spaced { format!("{} r{}, '{}'", mn, reg, ch) } else { format!("{} r{},'{}'", mn, reg, ch) };
+                let word = |ch: char| isa::words_to_bytes(&isa::encode(Core::Full, mn, &[Opnd::Reg(reg), Opnd::Imm(ch as i64)]).unwrap());
+                for order in [[lo, up, lo, up], [up, lo, lo, up], [lo, lo, up, up], [up, up, lo, lo]] {
+                    for spaced in [true, false] {
+                        for in_macro in [false, true] {
+                            let mut body = String::new();
+                            let mut want: Vec<u8> = vec![];
+                            for ch in order {
+                                body.push_str(&line(ch, spaced));
+                                body.push('\n');
+                                want.extend(word(ch));
+                            }
+                            let src = if in_macro {
+                                want = [want.clone(), want].concat();
+                                format!(".macro twin_m\n{}.endm\ntwin_m\ntwin_m\n", body)
+                            } else {
+                                body
+                            };
+                            let o = sut::build_str(&src);
+                            n_twins += 1;
+                            stats.cases.fetch_add(4, Ordering::Relaxed);
+                            if !matches!(&o, Outcome::Ok(b) if b.code == want) {
+                                rep.violation(&format!("C01/twin-lines/mnem={}/in-macro={}", mn, in_macro), || format!("lines that differ only in the case of a character literal (`{}` / `{}`) must assemble to {} but {}", line(lo, spaced), line(up, spaced), sut::hex(&want), o.brief()), || json!({"kind": "build_str", "source": src, "expected": {"result": "ok", "code": sut::hex(&want)}, "observed": o.to_json()}));
+                            }
+                        }
+                    }
+                }
+            }
+        }
+    }
+
     // 9. surroundings: the word of an instruction does not depend on where the line stands - in
     //    the body of a called macro (with and without unused parameters, called twice), in the
     //    selected arm of a conditional (the other arms hold other instructions), behind data,
@@ -562,7 +600,7 @@ pub fn run(tier: Tier) -> i32 {
         "exhaustive": true,
         "space": {"small_full_core": n_small, "big_full_core": icase::BIG_TOTAL, "reduced_core": n_red,
                   "adjacent_class_pairs": n_pairs, "adjacent_class_triples": n_triples, "mnemonic_classes": ncls, "label_operand_programs": n_label_programs, "data_label_operand_programs": n_data_labels, "pc_operand_after_data_programs": n_pc_after_data, "lines_of_the_large_symbolic_program": n_large,
-                  "surroundings": ctx_names.len(), "cases_in_a_surrounding": n_ctx_cases.load(Ordering::Relaxed), "device_classes": n_dev_classes, "cases_under_a_selected_device": n_dev_cases.load(Ordering::Relaxed)},
+                  "twin_line_programs": n_twins, "surroundings": ctx_names.len(), "cases_in_a_surrounding": n_ctx_cases.load(Ordering::Relaxed), "device_classes": n_dev_classes, "cases_under_a_selected_device": n_dev_cases.load(Ordering::Relaxed)},
         "batches": stats.batches.load(Ordering::Relaxed),
         "batches_localised_one_per_build": stats.localised.load(Ordering::Relaxed),
         "reference_self_check": {"first_words_decoded": sc.decoded_first_words, "first_words_unknown": sc.unknown_first_words, "roundtrips": sc.roundtrips},
